@@ -2,6 +2,8 @@ package fw
 
 import (
 	"fmt"
+	"os"
+	"path/filepath"
 	"sort"
 	"strings"
 	"time"
@@ -664,6 +666,7 @@ func CheckC19(e *Env) int {
 		}
 	}
 	showSameSpelling(e, rep)
+	tagsAgreement(e, rep)
 	return rep.Finish(t0)
 }
 
@@ -730,4 +733,63 @@ func showSameSpelling(e *Env, rep *Report) {
 	}
 	rep.Count("show_same_spelling_runs", 8)
 	rep.Held("show:same-spelling")
+}
+
+// tagsAgreement: the -tags option selects which injector files belong to the package; gen and
+// check given the same tags must decide alike (one file set generates, the other lacks a provider).
+func tagsAgreement(e *Env, rep *Report) {
+	var progs []*Program
+	for v := 0; v < 2; v++ {
+		id := fmt.Sprintf("tagagr%d", v)
+		p := &Program{ID: id, Module: ModulePath, Extra: map[string]string{}, Feat: map[string]string{"shape": "tags-select-injector-files"}, RawDriver: true}
+		p.Pkgs = []*Pkg{{Name: "app", Dir: "app"}}
+		p.Extra["0/decl.go"] = "package app\n\ntype Config struct{ N int }\n\ntype Server struct{ C Config }\n\nfunc NewConfig() Config { return Config{1} }\n\nfunc NewServer(c Config) *Server { return &Server{c} }\n"
+		good := "func Init() *Server {\n\tpanic(wire.Build(NewConfig, NewServer))\n}\n"
+		bad := "func Init() *Server {\n\tpanic(wire.Build(NewServer))\n}\n"
+		prod, dev := good, bad
+		if v == 1 {
+			prod, dev = bad, good
+		}
+		p.Extra["0/inject_prod.go"] = "//go:build wireinject && prod\n// +build wireinject,prod\n\npackage app\n\nimport \"github.com/google/wire\"\n\n" + prod
+		p.Extra["0/inject_dev.go"] = "//go:build wireinject && !prod\n// +build wireinject,!prod\n\npackage app\n\nimport \"github.com/google/wire\"\n\n" + dev
+		p.Extra["0/zz_driver.go"] = "//go:build !wireinject\n// +build !wireinject\n\npackage app\n\nfunc Scenarios() {}\n"
+		progs = append(progs, p)
+	}
+	b, err := e.NewBatch("c19tags", progs, nil)
+	if err != nil {
+		rep.Incon = append(rep.Incon, "harness: "+err.Error())
+		return
+	}
+	defer b.Remove()
+	for v, p := range progs {
+		for _, tags := range []string{"", "prod", "other"} {
+			args := func(cmd string) []string {
+				a := []string{cmd}
+				if tags != "" {
+					a = append(a, "-tags", tags)
+				}
+				return append(a, "./"+p.ID+"/app")
+			}
+			os.Remove(filepath.Join(b.Root, p.ID, "app", "wire_gen.go"))
+			g := e.Wire(b.Root, nil, args("gen")...)
+			c := e.Wire(b.Root, nil, args("check")...)
+			if g.TimedOut || c.TimedOut {
+				rep.Incon = append(rep.Incon, p.ID+": watchdog")
+				continue
+			}
+			wantFail := (tags == "prod") == (v == 1)
+			w := fmt.Sprintf("tags=%q\ngen exit=%d\n%s\ncheck exit=%d\n%s", tags, g.Exit, tail(g.Stderr, 600), c.Exit, tail(c.Stderr, 600))
+			if (g.Exit != 0) != wantFail {
+				// gen itself ignores or misapplies the tags: not this property's verdict
+				rep.NoClaim++
+				continue
+			}
+			if (g.Exit != 0) != (c.Exit != 0) {
+				rep.Violate(p.ID, Issue{Prop: "C19", Clause: fmt.Sprintf("gen and check given the same -tags decide differently (gen exit %d, check exit %d)", g.Exit, c.Exit), Witness: w, Sig: "C19:tags-agreement"}, p.Files(false), map[string]string{"tags.txt": tags})
+				continue
+			}
+			rep.Count("tags_agreement_runs", 1)
+			rep.Held(fmt.Sprintf("agree:tags-select-injector-files/variant=%d/tags=%s", v, tags))
+		}
+	}
 }
